@@ -157,6 +157,8 @@ pub fn run(ctx: &mut Ctx) {
   let mut accept_div = 0u64;
   let mut long_batches = 0u64;
   let mut very_long_batches = 0u64;
+  let mut bus_dma_starts = 0u64;
+  let mut bus_overflows = 0u64;
   let mut unit = 0u64;
 
   // ---- (1) every TAC value x every divider phase x batch lengths around every period
@@ -418,6 +420,80 @@ pub fn run(ctx: &mut Ctx) {
         }
       }
     }
+    // through the whole memory bus, as guest code sees the timer: register writes by bus
+    // stores, elapsed time delivered to the bus (multiples of 4), in half of the histories
+    // with an OAM transfer started from work RAM every few actions - the timer's behaviour
+    // must not depend on what else the bus is doing
+    if hi % 4 == 1 {
+      let mut mem = crate::support::memory_in_ram(0x00, vec![0u8; 0x8000], 0);
+      let mp = &mut *mem as *mut crate::mem::MemoryAreas;
+      let with_dma = hi % 8 == 1;
+      let mut r = RefTimer { div: 0, tima: 0, tma: 0, tac: 0 };
+      let mut amb = false;
+      for (i, a) in h.iter().enumerate() {
+        if with_dma && i % 3 == 0 {
+          crate::mem::memory_write_byte(mp, 0xff46, 0xc0 + (i as u8 & 0x0f));
+          bus_dma_starts += 1;
+        }
+        match a {
+          Act::Div => {
+            if r.selected() {
+              amb = true;
+            }
+            r.div = 0;
+            crate::mem::memory_write_byte(mp, 0xff04, 0x55);
+          }
+          Act::Tima(v) => {
+            r.tima = *v;
+            crate::mem::memory_write_byte(mp, 0xff05, *v);
+          }
+          Act::Tma(v) => {
+            r.tma = *v;
+            crate::mem::memory_write_byte(mp, 0xff06, *v);
+          }
+          Act::Tac(v) => {
+            let q = r.write_tac(*v);
+            crate::mem::memory_write_byte(mp, 0xff07, *v);
+            if q && !amb && crate::mem::memory_read_byte(mp, 0xff0f) & 4 == 0 {
+              ctx.violation("C13:bus:tac-glitch-request-lost", &format!("history {}: TAC write overflowed TIMA but IF bit 2 is clear", fmt_hist(&h, i)));
+            }
+          }
+          Act::Elapse(n) => {
+            let n4 = (*n / 4).max(1) * 4;
+            let q = r.run(n4);
+            let before = crate::mem::memory_read_byte(mp, 0xff0f) & 4;
+            mem.run_clock_cycles(ClockCycles(n4 as usize));
+            let after = crate::mem::memory_read_byte(mp, 0xff0f) & 4;
+            if q {
+              bus_overflows += 1;
+            }
+            if !amb && before == 0 && (after != 0) != q {
+              ctx.violation(
+                if with_dma { "C13:bus:request:transfer-in-progress" } else { "C13:bus:request" },
+                &format!("history {} (bus level{}): IF bit 2 {} after the batch, reference expects request={}", fmt_hist(&h, i), if with_dma { ", OAM transfers in progress" } else { "" }, after != 0, q),
+              );
+              break;
+            }
+          }
+        }
+        evaluations += 1;
+        if amb {
+          break;
+        }
+        let got = (crate::mem::memory_read_byte(mp, 0xff04), crate::mem::memory_read_byte(mp, 0xff05), crate::mem::memory_read_byte(mp, 0xff06));
+        if got != ((r.div >> 8) as u8, r.tima, r.tma) {
+          ctx.violation(
+            if with_dma { "C13:bus:registers:transfer-in-progress" } else { "C13:bus:registers" },
+            &format!("history {} (bus level): bus reads DIV={:02X} TIMA={:02X} TMA={:02X}, reference {:02X} {:02X} {:02X}", fmt_hist(&h, i), got.0, got.1, got.2, (r.div >> 8) as u8, r.tima, r.tma),
+          );
+          break;
+        }
+        let f = crate::mem::memory_read_byte(mp, 0xff0f);
+        if f & 4 != 0 {
+          crate::mem::memory_write_byte(mp, 0xff0f, f & !4);
+        }
+      }
+    }
     ctx.distinct_key(hash_words(&[3, hi]));
     if ctx.want_sample() && hi % 977 == 5 {
       ctx.sample(&format!("history from phase {:04X}: {} replayed per-clock, as one batch per action and with random partitions; DIV/TIMA/request compared with the per-clock reference after every action", phase, fmt_hist(&h, 12)));
@@ -433,6 +509,8 @@ pub fn run(ctx: &mut Ctx) {
   }
   ctx.count("evaluations", evaluations);
   ctx.count("overflows-expected", overflows);
+  ctx.count("bus-level:oam-transfers-started", bus_dma_starts);
+  ctx.count("bus-level:overflows-expected", bus_overflows);
   ctx.count("tac-glitch-increments", glitches);
   ctx.count("single-batches:301-5000-clocks", long_batches);
   ctx.count("single-batches:over-5000-clocks", very_long_batches);
